@@ -13,7 +13,7 @@ import (
 func init() {
 	mon.Register(&mon.Prop{
 		ID: "C12", Level: "exploration",
-		Rule:        "complete enumeration of all strings over alphabets of size 2/3/4 up to the stated lengths and over the byte alphabets {0x80,0xff} and {0xc3,0xa9,A} (strings that are not valid UTF-8) (every rotation of every string is itself in the enumeration) plus structured long strings (powers, powers with one letter changed, Fibonacci and Thue-Morse words, runs, random) with a random rotation of each; non-trivial = length >= 2 and not all letters equal; distinct by hash of the string",
+		Rule:        "complete enumeration of all strings over alphabets of size 2/3/4 up to the stated lengths and over the byte alphabets {0x80,0xff} and {0xc3,0xa9,A} (strings that are not valid UTF-8) (every rotation of every string is itself in the enumeration) plus structured long strings (powers, powers with one letter changed, Fibonacci and Thue-Morse words, runs, tied tracts of the least letter, truncated tandem arrays, random) with a random rotation of each; non-trivial = length >= 2 and not all letters equal; distinct by hash of the string",
 		Assumptions: []string{"oracle: brute force over all rotations for n<=64, independent two-pointer minimal-rotation scan above; both cross-checked on every short string"},
 		Shards:      tierShards(8, 16), WatchdogSec: tierSecs(600, 3600),
 		Run: runC12,
@@ -168,6 +168,33 @@ func runC12(w *mon.W) {
 			u := fibWord(2 + r.Intn(30))
 			s = strings.Repeat(u, n/len(u)+1)[:n]
 		}
+		if i%9 == 4 {
+			// tied tracts: the least letter of the alphabet stands in two or three tracts of one and the same length
+			// (4..70) with different texts in between, and a truncated tandem array (a unit repeated, cut mid-unit)
+			least := alpha[0]
+			for j := 1; j < len(alpha); j++ {
+				if alpha[j] < least {
+					least = alpha[j]
+				}
+			}
+			rest := strings.ReplaceAll(alpha, string(least), "")
+			if r.Intn(3) == 0 || rest == "" {
+				kind = "truncated-tandem-array"
+				u := randString(r, alpha, 2+r.Intn(9))
+				reps := 2 + r.Intn(60)
+				s = strings.Repeat(u, reps) + u[:r.Intn(len(u))]
+			} else {
+				kind = "tied-tracts"
+				t := strings.Repeat(string(least), 4+r.Intn(67))
+				var sb strings.Builder
+				for k := 2 + r.Intn(2); k > 0; k-- {
+					sb.WriteString(t)
+					sb.WriteString(randString(r, rest, 1+r.Intn(40)))
+				}
+				s = sb.String()
+			}
+			n = len(s)
+		}
 		if i%9 == 8 {
 			// byte strings that are valid multi-byte UTF-8: the order that counts is still the order of bytes
 			kind = "multi-byte-utf8"
@@ -200,6 +227,11 @@ func runC12(w *mon.W) {
 		c12Judge(w, id, s)
 		rot := rotate(s, r.Intn(len(s)))
 		c12Judge(w, id, rot)
+		if (kind == "tied-tracts" || kind == "truncated-tandem-array") && len(s) < 2000 {
+			for j := 0; j < 12; j++ { // the written origin inside a tract, at its ends, anywhere
+				c12Judge(w, id, rotate(s, r.Intn(len(s))))
+			}
+		}
 		w.End()
 		if w.WantSample() && n < 200 {
 			w.Sample(map[string]any{"case": id, "kind": kind, "input": fmt.Sprintf("%q", s), "least_rotation": fmt.Sprintf("%q", oracle.LeastRotation(s))})
